@@ -11,14 +11,14 @@ import vlib, fam_archive as fa
 from vlib import Inconclusive, log
 
 PID = "C16"
-CHECKS = ["C16_Confined", "C16_CleanNames", "C16_SizeReject", "C16_SizeRead", "C16_SizeHeader"]
+CHECKS = ["C16_Confined", "C16_NoOutsideLinks", "C16_CleanNames", "C16_SizeReject", "C16_SizeRead", "C16_SizeHeader"]
 
 
 def describe(case, o=None):
     ents = []
     for e in case["stream"]:
         nm = "".join((e["seps"][i - 1] if i else "") + (c if c else "<empty>") for i, c in enumerate(e["comps"]))
-        ents.append("%s:%s%s" % (e["type"], nm, (" size=%d" % e["size"]) if case["fam"] in ("size", "sizeread") else ""))
+        ents.append("%s:%s%s%s" % (e["type"], nm, ("->" + e.get("link", "")) if e["type"] in ("symlink", "hardlink") else "", (" size=%d" % e["size"]) if case["fam"] in ("size", "sizeread") else ""))
     s = "%s %s layout=%s%s%s [%s]" % (case["fam"], case["op"], case["layout"],
                                       (" chartname=" + "/".join(case["cname"])) if case["op"] == "expand" else "",
                                       (" api=%s lock=%s" % (case["api"], case["lock"])) if case["op"] == "lock" else "",
